@@ -16,7 +16,7 @@ rp = os.path.join(V, "seeded", "RESULTS.json")
 if os.path.exists(rp):
     allres = json.load(open(rp))
 def sh(cmd, **kw):
-    return subprocess.run(cmd, shell=True, env=env, stdout=subprocess.PIPE, stderr=subprocess.STDOUT, text=True, **kw)
+    return subprocess.run(cmd, shell=True, env=env, stdout=subprocess.PIPE, stderr=subprocess.STDOUT, text=True, errors="replace", **kw)
 assert sh("git -C /repo status --porcelain").stdout.strip() == "", "/repo not clean"
 for sid in ids:
     d = os.path.join(V, "seeded", sid)
